@@ -184,7 +184,7 @@ pub fn run_one(case: &SchedCase, stats: &mut C04Stats) -> Result<(RunRec, Vec<Vi
 
 pub fn run_shard(ctx: &mut Ctx) {
     let mut r = Rng::new(ctx.shard_seed());
-    let quick_n = 120u64;
+    let quick_n = 400u64;
     let mut h = 0u64;
     let mut stats = C04Stats::default();
     loop {
